@@ -100,7 +100,7 @@ def build_repo_bins(packages):
     return os.path.join(tdir, "debug")
 
 
-def run_vh(vh, args, cases, timeout=1800, env=None):
+def run_vh(vh, args, cases, timeout=1800, env=None, hang_is_failure=False, death_is_failure=False):
     """Run the harness with NDJSON cases on stdin; returns (failures, summary, raw_lines)."""
     data = "\n".join(json.dumps(c, separators=(",", ":")) for c in cases) + "\n"
     e = dict(os.environ)
@@ -109,11 +109,29 @@ def run_vh(vh, args, cases, timeout=1800, env=None):
     e["RUST_BACKTRACE"] = "0"
     if env:
         e.update(env)
+    import signal
+    pr = subprocess.Popen([vh] + args, stdin=subprocess.PIPE, stdout=subprocess.PIPE, stderr=subprocess.PIPE, text=True, env=e,
+                          start_new_session=True)
     try:
-        p = subprocess.run([vh] + args, input=data, stdout=subprocess.PIPE, stderr=subprocess.PIPE,
-                           text=True, timeout=timeout, env=e)
+        so, se = pr.communicate(data, timeout=timeout)
     except subprocess.TimeoutExpired:
+        try:
+            os.killpg(pr.pid, signal.SIGKILL)
+        except OSError:
+            pass
+        try:
+            so, se = pr.communicate(timeout=10)
+        except Exception:
+            so, se = "", ""
+        if hang_is_failure:
+            return [{"fail": True, "case": 0, "variant": "hang", "detail": "harness run %s did not finish within %ss (a call into the library never returned)" % (args, timeout),
+                     "sig": "hang " + " ".join(args)}], {"executions": 0, "cases": 0, "failures": 1}, []
         raise ToolError("harness %s timed out after %ss" % (args, timeout))
+
+    class _P:
+        pass
+    p = _P()
+    p.stdout, p.stderr, p.returncode = so, se, pr.returncode
     fails, summary, other = [], None, []
     for line in p.stdout.splitlines():
         line = line.strip()
@@ -130,6 +148,10 @@ def run_vh(vh, args, cases, timeout=1800, env=None):
         else:
             other.append(j)
     if summary is None:
+        if death_is_failure and p.returncode is not None and p.returncode < 0:
+            fails.append({"fail": True, "case": 0, "variant": "died", "sig": "died " + " ".join(args),
+                          "detail": "the process calling into the library was killed by signal %d: %s" % (-p.returncode, p.stderr[-600:])})
+            return fails, {"executions": 0, "cases": 0, "failures": len(fails)}, other
         log(p.stderr[-4000:])
         raise ToolError("harness %s produced no summary (exit %s)" % (args, p.returncode))
     return fails, summary, other
